@@ -196,6 +196,27 @@ impl Report {
         self.findings.insert(key, f);
     }
 
+    /// Merges a per-worker report into this one (counters summed, findings deduplicated).
+    pub fn absorb(&mut self, other: Report) {
+        for (k, v) in other.counters {
+            *self.counters.entry(k).or_insert(0) += v;
+        }
+        for s in other.samples {
+            self.sample(s);
+        }
+        for a in other.assumptions {
+            self.assume(&a);
+        }
+        self.suppressed_findings += other.suppressed_findings;
+        for (_, f) in other.findings {
+            self.finding(f);
+        }
+        if !other.exhaustive {
+            self.exhaustive = false;
+        }
+        self.caps_hit.extend(other.caps_hit);
+    }
+
     pub fn n_findings(&self) -> usize {
         self.findings.len()
     }
